@@ -201,6 +201,8 @@ pub fn run_check(ctx: &Ctx) -> i32 {
         sweep(ctx, "F<=3 x 4 configs x L1,LB", Space::Frags { k, max: 3 }, &small, l1);
         sweep(ctx, "B16<=4 x 4 configs x L1,L2,LB,LE", Space::Bytes { max: 4 }, &small, l12);
         sweep(ctx, "F<=2 x 3 encodings x 2 configs x L1,L2,LB,LE", Space::Frags { k, max: 2 }, &enc_cfgs, l12);
+        let all36: Vec<Prepared> = all_encodings().iter().flat_map(|e| prep_menu(&obs, &["everything"], &[false], e.name())).collect();
+        sweep(ctx, "F<=2 x all 36 encodings x everything-observers x L1,LB", Space::Frags { k, max: 2 }, &all36, l1);
     } else {
         let l_all = Levels { l1: true, l2_max_len: 48, bytewise: true, empties: true };
         sweep(ctx, "F<=3 x 18 configs x L1,L2,LB,LE,rewrite_str", Space::Frags { k, max: 3 }, &full, l_all);
